@@ -46,7 +46,7 @@ class Ref:
             size = self.nr if k == "add_row" else self.nc
             if at is not None and not (0 <= at < size):
                 raise IndexError
-            if n < 1:
+            if n < 0:
                 raise IndexError
             at = size if at is None else at
             if k == "add_row":
@@ -60,9 +60,9 @@ class Ref:
             if at is not None and not (0 <= at < size):
                 raise IndexError
             start = size - n if at is None else at
-            if n < 1 or start < 0 or start + n > size:
+            if n < 0 or start < 0 or start + n > size:
                 raise IndexError
-            if n >= size:
+            if n >= size and n > 0:
                 raise IndexError  # emptying a table: not generated; if it happens the reference refuses it
             if k == "delete_row":
                 del self.g[start:start + n]
@@ -220,7 +220,7 @@ def main():
     ap.add_argument("--small", action="store_true")
     a = ap.parse_args()
     cases = []
-    for shape in ((3, 3),) if a.small else ((3, 3), (2, 2)):
+    for shape in ((3, 3), (1, 1)) if a.small else ((3, 3), (2, 2), (1, 1)):
         ops = ops_alphabet(*shape, small=a.small)
         for L in range(1, a.max_len + 1):
             if L == 3:
